@@ -245,4 +245,86 @@ def rule_hazards(ctx):
     ctx.counts["H:sites in scope"] = n
 
 
-RULES = [("H", rule_hazards)]
+_LOCKED_RUNNERS = ("sync::wait_for", "sync::wait_for_some", "watch::Receiver::wait_for", "watch::Sender::send_if_modified", "watch::Sender::send_modify",
+                   "sync::try_send_modify")
+_WATCH_ACCESS = ("watch::Sender::borrow", "watch::Receiver::borrow", "watch::Receiver::borrow_and_update", "watch::Sender::send", "watch::Sender::send_replace",
+                 "watch::Sender::send_if_modified", "watch::Sender::send_modify", "watch::Receiver::has_changed", "watch::Receiver::wait_for")
+
+
+def _watch_payloads(f, t):
+    """payload types T of the watch::Sender<T> / watch::Receiver<T> / watch::Ref values among the operands of a call"""
+    out = set()
+    for a in t.get("args", []):
+        pl = a.get("m") or a.get("c")
+        if pl is None:
+            continue
+        ty = f.locals[pl["l"]].s
+        for key in ("watch::Sender<", "watch::Receiver<"):
+            i = ty.find(key)
+            while i >= 0:
+                j = i + len(key)
+                d = 1
+                k = j
+                while k < len(ty) and d:
+                    d += ty[k] == "<"
+                    d -= ty[k] == ">"
+                    k += 1
+                out.add(ty[j:k - 1])
+                i = ty.find(key, k)
+    return out
+
+
+def rule_reentrant_watch(ctx):
+    """H6 (global, expected count zero): a closure that tokio's watch runs while it holds the channel's lock (the predicate of
+    wait_for, the updater of send_if_modified / send_modify, and the workspace wrappers around them) must not touch a watch
+    channel again - directly or through up to three levels of workspace calls. The lock is not re-entrant and readers queue behind
+    a waiting writer: `wait_for(|_| self.queued()...)` deadlocks every user of the store as soon as a writer arrives between the
+    two reads (seed S9C06). Non-vacuity: the number of such closures scanned has a floor."""
+    R = "H6"
+    ctx.rule(R, "no re-entrant watch access: closures run under a watch channel's lock (wait_for predicates, send_if_modified / send_modify updaters) reach no watch borrow / send API within three workspace calls")
+    G = ctx.cg
+    scanned = 0
+    for f in ctx.F.fns:
+        if f.in_testonly() or f.crate in ("zksync_protobuf", "zksync_protobuf_build") or "loadtest" in f.qname:
+            continue
+        T = ctx.T(f)
+        for c in T.calls():
+            q = c["rq"] or c["q"] or ""
+            if not q.endswith(_LOCKED_RUNNERS):
+                continue
+            pay = _watch_payloads(f, c["t"])
+            cl = [x for a in T.args_of(c) for x in subterms(a) if x[0] == "closure"]
+            for x in cl:
+                g0 = (ctx.F.by_qname.get(x[1]) or [None])[0]
+                if g0 is None:
+                    continue
+                scanned += 1
+                seen = {g0}
+                front = [(g0, [g0.qname])]
+                hit = None
+                for depth in range(4):
+                    nxt = []
+                    for g, path in front:
+                        for c2 in ctx.T(g).calls():
+                            q2 = c2["rq"] or c2["q"] or ""
+                            if q2.endswith(_WATCH_ACCESS):
+                                # the same channel needs the same payload type (a clock's or another component's watch is another lock)
+                                p2 = _watch_payloads(g, c2["t"])
+                                if not pay or not p2 or pay & p2:
+                                    hit = hit or (g, c2, path, q2)
+                        for h in G.edges.get(g, ()):
+                            if h not in seen and not h.in_testonly() and G.edge_why.get((g, h)) in ("direct", "closure"):
+                                seen.add(h)
+                                nxt.append((h, path + [h.qname]))
+                    front = nxt
+                    if hit:
+                        break
+                if hit:
+                    g, c2, path, q2 = hit
+                    ctx.ob(R, "%s | %s" % (origin_root(f.qname), "::".join(q2.split("::")[-2:])), False,
+                           "the closure handed to %s in %s reaches %s (via %s) while the watch channel's lock is held: a second, non-re-entrant acquisition - it deadlocks as soon as a writer queues between the two" % ("::".join(q.split("::")[-2:]), origin_root(f.qname), "::".join(q2.split("::")[-3:]), " -> ".join(p.split("::")[-1] for p in path)), g.loc(c2["t"].get("ln")))
+    ctx.floor(R, "closures run under a watch lock", scanned, 10)
+    ctx.ob(R, "scan", True, "%d closures run under a watch lock scanned to depth 3" % scanned)
+
+
+RULES = [("H", rule_hazards), ("H6", rule_reentrant_watch)]
